@@ -148,3 +148,32 @@ func TestU2_C06_IdSuffixJunction(t *testing.T) {
 		"new,irreversible #4 (4a)",
 	}, r.events)
 }
+
+// (A') the same request through the JoiningSource (what stream.Stream builds): start block 7, target cursor on the
+// canonical block 5, live side not serving yet (hub lowest block above the files): the whole source fails.
+func TestU2_C06_ThroughStartAboveCursor_Joining(t *testing.T) {
+	mstore := dstore.NewMockStore(nil)
+	mstore.SetFile(base(0), testBlocks(u2c06Canon(1, 8)...))
+	files := NewFileSourceFactory(mstore, dstore.NewMockStore(nil), zlog, FileSourceWithStopBlock(8))
+	live := NewTestSourceFactory()
+	live.LowestBlkNum = 1000
+	live.ThroughCursorFunc = func(uint64, *Cursor, Handler) Source { return nil }
+	cur := &Cursor{Step: StepNew, Block: NewBlockRef(u2c06ID(5, "a"), 5), HeadBlock: NewBlockRef(u2c06ID(5, "a"), 5), LIB: NewBlockRef(u2c06ID(3, "a"), 3)}
+	var got []string
+	h := HandlerFunc(func(blk *pbbstream.Block, obj interface{}) error {
+		got = append(got, blk.AsRef().String())
+		return nil
+	})
+	js := NewJoiningSource(files, live, h, 7, cur, true, zlog)
+	done := make(chan struct{})
+	go func() { defer close(done); js.Run() }()
+	select {
+	case <-done:
+	case <-time.After(3 * time.Second):
+		t.Fatal("joining source hangs")
+	}
+	t.Logf("joining source: delivered=%v err=%v", got, js.Err())
+	require.Empty(t, got)
+	require.Error(t, js.Err())
+	require.True(t, strings.Contains(js.Err().Error(), "not implemented"))
+}
